@@ -38,4 +38,12 @@ PROPS = {
         "explanation": "Tie A: baseTable/experimentalTable regenerated and the finite obligations re-proved. Tie B: every (name, argument count, option) compiled and, when accepted, evaluated; compile verdict compared with the model over the regenerated table.",
         "assumptions": ["the N1 list and its argument counts are typed in by hand from the specification"],
     },
+    "C07": {
+        "fragments": ["functable"],
+        "oblig": ["C07_gen.v"],
+        "level_text": "Proof over a classification model, decided by complete enumeration. The quantifier of C07 is a finite program space (every operator x position, every table name x accepted arity x argument position, three empty sources); the check enumerates it completely through Compile/Evaluate on every run. Coq proves, for ANY function table whose names are all classified (an obligation re-proved by vm_compute over the table regenerated from table.go on every run, so a new entry without classification breaks it), that every outcome the model allows satisfies the property (implemented non-aggregates give empty on empty input, placeholders give an error, an empty single-valued argument gives empty or an error, nothing panics), and that every operator except & gives empty.",
+        "level_note": "Trusted: Coq kernel, go2v's reading of the table, harness + hook, check driver, the hand-written classification of function names (aggregate / propagating / placeholder; criterion / collection / single-valued argument) in coq/C07/Model.v. The per-function Go bodies are not modelled statement by statement: their empty-input behaviour is tied by the exhaustive run.",
+        "explanation": "Tie A: function tables regenerated, classification completeness re-proved. Tie B: exhaustive single-operator / single-call programs.",
+        "assumptions": ["`a.exists({})`, `a.all({})`, `iif({},..)` are criteria, not single-valued arguments, and may yield values; collection arguments of intersect/exclude may be empty"],
+    },
 }
